@@ -349,7 +349,7 @@ def run(prog, rep):
         rep.violation('R2', loc(nmod, ci), 'NetworkService.connect_interface', 'no already-connected guard', 'an interface that already has a peer must be refused')
 
     # ---- R10: the graph-level deep writers refuse, before their first insertion, what would make them fail half way ----
-    rep.rule('R10', 'a deep graph writer checks the parent and every node id of the sliver tree before its first insertion', floor=4)
+    rep.rule('R10', 'a deep graph writer checks the parent and every node id of the sliver tree before its first insertion', floor=5)
     apg10 = prog.cls('fim.graph.abc_property_graph:ABCPropertyGraph')
     CONTAINERS10 = ('attached_components_info', 'network_service_info', 'interface_info')
     DEEP = ('add_network_node_sliver', 'add_component_sliver', 'add_network_service_sliver', 'add_interface_sliver')
@@ -432,6 +432,40 @@ def run(prog, rep):
                           f'{w} inserts the element and then its nested elements ({sorted(need)}) one by one; a nested node id that is already in use '
                           f'is refused at that point, after the element and the earlier nested elements were inserted, and they stay in the model')
 
+    # the collector of the tree ids descends all the way: below each child container it calls itself on the child (or feeds a
+    # worklist it is popping from); taking only `child.node_id` covers one level of a tree that is up to four deep
+    collectors = []
+    for cname, cf in apg10.methods.items():
+        txt_names = {x.value for x in ast.walk(cf) if isinstance(x, ast.Constant) and isinstance(x.value, str)} | \
+            {x.attr for x in ast.walk(cf) if isinstance(x, ast.Attribute)}
+        if len(set(CONTAINERS10) & txt_names) < 2 or 'node_id' not in txt_names:
+            continue
+        if any(isinstance(c, ast.Call) and call_name(c) in ('add_node', 'add_link') + DEEP for c in ast.walk(cf)):
+            continue
+        if not any(isinstance(r_, ast.Return) and r_.value is not None for r_ in ast.walk(cf)):
+            continue
+        if not any(isinstance(c, ast.Call) and call_name(c) == cname for w in DEEP for c in ast.walk(inline(prog, apg10, apg10.methods[w], depth=1))) and \
+                not any(isinstance(c, ast.Call) and call_name(c) == cname for o in apg10.methods.values() if o is not cf for c in ast.walk(o)):
+            continue
+        collectors.append((cname, cf))
+    for cname, cf in collectors:
+        loops_c = [l for l in ast.walk(cf) if isinstance(l, (ast.For, ast.comprehension, ast.While))]
+        recursive = any(isinstance(c, ast.Call) and call_name(c) == cname for c in ast.walk(cf))
+        worklist = any(isinstance(l, ast.While) and any(isinstance(c, ast.Call) and call_name(c) in ('pop', 'popleft') for c in ast.walk(l)) and
+                       any(isinstance(c, ast.Call) and call_name(c) in ('extend', 'append', 'appendleft') for c in ast.walk(l)) for l in loops_c)
+        shallow = [x for x in ast.walk(cf) if isinstance(x, ast.Attribute) and x.attr == 'node_id' and isinstance(x.value, ast.Name) and
+                   x.value.id not in func_params(cf)]
+        rep.instance('R10', f'{cname}: collects the node ids of a sliver tree; descends by recursion: {recursive}, by worklist: {worklist}')
+        if not recursive and not worklist:
+            if not shallow:
+                raise AnalysisError(f'{apg10.module.relpath}:{cf.lineno} {cname}: how the collector descends into the children is not recognised')
+            rep.violation('R10', loc(apg10.module, shallow[0]), f'ABCPropertyGraph.{cname}', f'only {norm(shallow[0])} of each child is collected',
+                          f'{cname} lists the ids the writers verify before their first insertion, but takes only the id of each direct child: '
+                          f'the ids further down (the services and interfaces of a component, the sub-interfaces of an interface) are not verified, '
+                          f'and a clash there is refused only after the element and part of its children were inserted - they stay in the model')
+    if not collectors:
+        rep.note('R10: no separate tree-id collector found; the ids_ok check above stands alone')
+
     # ---- R9: what a step created is on the undo list before the next step can fail ----
     rep.rule('R9', 'in a compensated body every created element is recorded for the rollback before the next step that can fail', floor=2)
     for m_, c_, f_ in prog.all_functions():
@@ -460,6 +494,41 @@ def run(prog, rep):
                         rep.violation('R9', loc(m_, between[0]), f'{c_.name}.{f_.name}', f'{norm(between[0], 70)} runs before `{var_}` is on the undo list',
                                       f'`{var_}` is created, then `{norm(between[0], 60)}` can raise before `{var_}` has been recorded on {ul_}: '
                                       f'the handler does not know about it and leaves it in the model')
+
+    # ---- R11: a rollback handler is entered for every failure of the guarded steps ----
+    rep.rule('R11', 'a handler that undoes the guarded steps and re-raises catches Exception (asserts, graph and model errors alike)', floor=5)
+    UNDO = REMOVERS | {'disconnect_interface', 'remove_node', 'remove_component', 'remove_interface', 'remove_network_service',
+                       'remove_link', 'remove_facility', 'remove_switch', 'remove_storage', 'remove_child_interface', '_rollback'}
+    for m_, c_, f_ in prog.all_functions():
+        if not (m_.name.startswith('fim.user') or m_.name.startswith('fim.graph')):
+            continue
+        fi_ = f_
+        if c_ is not None and any(isinstance(t, ast.Try) for t in walk_no_nested(f_)):
+            try:
+                fi_ = inline(prog, c_, f_)       # the undo may sit in a private helper the handler calls
+            except Exception:
+                fi_ = f_
+        for tr_ in [t for t in walk_no_nested(fi_) if isinstance(t, ast.Try)]:
+            comp = [h_ for h_ in tr_.handlers if any(isinstance(x, ast.Call) and call_name(x) in UNDO for x in ast.walk(h_)) and
+                    any(isinstance(x, ast.Raise) for x in ast.walk(h_))]
+            if not comp:
+                continue
+            fq_ = (c_.name + '.' if c_ else '') + f_.name
+            caught = set()
+            for h_ in tr_.handlers:
+                if h_.type is None:
+                    caught.add('BaseException')
+                else:
+                    for t_ in (h_.type.elts if isinstance(h_.type, ast.Tuple) else [h_.type]):
+                        caught.add(ast.unparse(t_).split('.')[-1])
+            wide = bool(caught & {'Exception', 'BaseException'})
+            # every handler of the statement has to undo: a narrower sibling that does not would let its type through un-compensated
+            rep.instance('R11', f'{fq_}: rollback handler catches {sorted(caught)}')
+            if not wide:
+                rep.violation('R11', loc(m_, comp[0]), fq_, f'rollback only on {sorted(caught)}',
+                              f'the handler that undoes the partially performed operation is entered only for {sorted(caught)}; the guarded steps '
+                              f'also fail with other exceptions (assertions on arguments, graph query/import errors, errors of the sliver '
+                              f'setters): those pass the handler by and leave the partially built element in the model')
 
     # ---- R6: a compensation handler only undoes what the guarded body has done ----
     rep.rule('R6', 'a rollback handler never deletes an element whose creation is itself inside the guarded body', floor=3)
